@@ -1,5 +1,6 @@
 SPECIFICATION B2Spec
 CONSTANTS
+  Items = {"field", "kv", "kvs", "md", "roy", "owner", "role"}
   K = 2
 INVARIANT EmitAll
 CHECK_DEADLOCK FALSE
